@@ -47,10 +47,15 @@ def _gen_maze(rng, kind, r, c):
     raise ValueError(kind)
 
 
+BIG = [(16, 16), (20, 20), (2, 70), (70, 2), (12, 12), (1, 140), (13, 20)]
+
+
 def observe_random(args):
     seed, k, maxn, via = args
     rng = np.random.default_rng([seed, k])
-    r, c = int(rng.integers(2, maxn + 1)), int(rng.integers(2, maxn + 1))
+    r, c = (int(rng.integers(2, maxn + 1)), int(rng.integers(2, maxn + 1))) if maxn > 0 else (2, 2)
+    if maxn < 0:  # large / extreme shapes: more than 127 / 255 cells, coordinates beyond 127 are impossible for int8 here but paths > 127 steps are not
+        r, c = BIG[k % len(BIG)]
     kind = ["perc", "dfs", "dfs_perc", "dfs_partial"][k % 4]
     conn = _gen_maze(rng, kind, r, c)
     m = mz.LatticeMaze(connection_list=conn)
@@ -127,6 +132,7 @@ def main(chk: lib.Check) -> int:
     # ---- (C) random larger graphs, plus the SolvedMaze constructor path
     nrand = 6000 if thorough else 800
     recs += lib.pmap(observe_random, [(chk.seed, k, 15, "solved" if k % 5 == 0 else "direct") for k in range(nrand)], chunksize=8)
+    recs += lib.pmap(observe_random, [(chk.seed, 100000 + k, -1, "solved" if k % 4 == 0 else "direct") for k in range(140 if thorough else 28)], chunksize=2)
     for i, x in enumerate(recs):
         x["id"] = i
     res = lib.oracle("Trace_SP", recs, tag="sp")
